@@ -136,6 +136,30 @@ def run(chk, replay=None):
             if got['coll'] != want[coll] or got['db'] != want[db] or got['ns'] != want[db + '.' + coll]:
                 chk.violate('the same name gets different pseudonyms depending on where it stands', {'verb': vb, 'db': db, 'coll': coll, 'got': got, 'expected': {'coll': want[coll], 'db': want[db], 'ns': want[db + '.' + coll]}}, tags=['positions'])
     chk.streams.append({'stream': 'one name through every namespace-bearing verb', 'lines': 3 * len(verbs)})
+    # ... and as stage arguments, in the string form and the {db, coll} document form: every VALUE is the pseudonym of that value alone,
+    # whatever the replacement text and the name look like (dots in the replacement, dotted database names, '$'-prefixed collections)
+    nstage = 0
+    for rp in (b'REDACTED', b'X.Y', b'r.e.p.', b'.', b''):
+        cfgs_ = Cfg(nss=True, repl=rp.decode())
+        for db, coll in (('reporting', 'daily'), ('tenant.eu', 'orders'), ('shop', '$cmd.aggregate'), ('a.b.c', 'x.y'), ('d', 'system.views'), ('$external', 'c')):
+            want = {nm: unb64(run_harness([cfgs_.harness_req(), {"op": "hash", "s": b64(nm.encode())}])[1]['o']).decode() for nm in (db, coll)}
+            pipes = [[{'$merge': {'into': {'db': db, 'coll': coll}}}], [{'$out': {'db': db, 'coll': coll}}], [{'$merge': {'into': coll}}], [{'$lookup': {'from': coll, 'localField': 'a', 'foreignField': 'b', 'as': 'j'}}],
+                     [{'$unionWith': {'coll': coll, 'pipeline': []}}], [{'$merge': {'into': {'coll': coll, 'db': db}, 'on': '_id'}}], [{'$facet': {'f': [{'$merge': {'into': {'db': db, 'coll': coll}}}]}}]]
+            ls = [json.dumps({"t": {"$date": "2020-01-01T00:00:00.000+00:00"}, "s": "I", "c": "COMMAND", "id": 1, "ctx": "c", "msg": "Slow query", "attr": {"ns": db + '.' + coll, "command": {'aggregate': coll, 'pipeline': pl, '$db': db}}}, ensure_ascii=False).encode() for pl in pipes]
+            for pl, l, (io, mo) in zip(pipes, ls, run_lines(cfgs_, ls)):
+                chk.count(); chk.traces += 1; nstage += 1
+                if io != mo: chk.disagree('namespace stage argument', {'repl': rp.decode(), 'line': l.decode()}, str(io)[:300], str(mo)[:300])
+                if not isinstance(io, bytes): continue
+                st = json.loads(io)['attr']['command']['pipeline'][0]
+                if '$facet' in st: st = st['$facet']['f'][0]
+                arg = list(st.values())[0]
+                arg = arg.get('into', arg.get('from', arg.get('coll', arg))) if isinstance(arg, dict) and not ('db' in arg and 'coll' in arg and len(arg) == 2) else arg
+                got = {'db': arg.get('db'), 'coll': arg.get('coll')} if isinstance(arg, dict) else {'coll': arg}
+                bad = [(k, v) for k, v in got.items() if v is not None and v != want[db if k == 'db' else coll]]
+                if bad:
+                    chk.violate('a namespace stage argument is not the pseudonym of its own value', {'replacement': rp.decode(), 'db': db, 'coll': coll, 'stage': pl, 'got': got,
+                                'expected': {'db': want[db], 'coll': want[coll]}}, tags=['positions', 'stagearg'])
+    chk.streams.append({'stream': 'names as stage arguments (string and {db, coll} forms) x replacement texts with dots', 'lines': nstage})
     # through the CLI: two separate processes, flag wiring (-w) end to end
     pass
     line = json.dumps({"t": {"$date": "2020-01-01T00:00:00.000+00:00"}, "s": "I", "c": "NETWORK", "id": 1, "ctx": "c", "msg": "m", "attr": {"ns": "mydb.orders.archive"}})
